@@ -290,6 +290,19 @@ def oracle_c13(case, res, guard=True):
         # k/n labels are 1..n per event, independently of the accessors
         per = {}
         for r in det: per.setdefault(r[3], []).append(r[11])
+        for ev, labs in per.items():
+            if labs != [f"{k + 1}/{len(labs)}" for k in range(len(labs))]: return f"{a}: fractions of taxable event {ev} are labelled {labs}"
+        # acquired-lot labels: the fractions of a lot up to the to-date are numbered 1..n; the from-date only hides a prefix of them
+        if (not guard) or dates_ok(case):
+            perl = {}
+            for r in det:
+                if r[4] is not None: perl.setdefault(r[4], []).append(r[12])
+            for lot, labs in perl.items():
+                try: kn = [tuple(int(x) for x in l.split("/")) for l in labs]
+                except ValueError: return f"{a}: fractions of lot {lot} are labelled {labs}"
+                n = kn[-1][1]
+                if any(q[1] != n for q in kn) or [q[0] for q in kn] != list(range(n - len(kn) + 1, n + 1)) or (case["from"] is None and len(kn) != n):
+                    return f"{a}: the {len(kn)} fractions of lot {lot} shown (window [{case['from']}, {case['to']}]) are labelled {labs}"
     return None
 def oracle_c14(case, res, guard=True):
     if res["status"].startswith(("gen-error", "crash")) and case["which"] in WHICH["C14"]: return f"the tax report could not be generated ({res['status']}): nothing is listed"
